@@ -414,7 +414,12 @@ fn concurrent_readers(st: &Store, m: &MStore, nids: u64, seed: u64) -> Option<Va
     r
 }
 
+static WD: std::sync::OnceLock<std::sync::Arc<vh::watchdog::Watchdog>> = std::sync::OnceLock::new();
+
 fn run_sequence(env: &Env, rep: &mut Report, idx: u64, ops: &[SOp], shards: usize, kind: &str) -> bool {
+    if let Some(w) = WD.get() {
+        w.beat();
+    }
     let mut st: Store = TrackStoreBuilder::new(shards).default_attributes(WAttrs::new(1, env.cap, env.plan.clone())).metric(WMetric { state: 0, plan: env.plan.clone() }).notifier(env.notif.clone()).build();
     let mut m = MStore::new(WAttrs::new(1, env.cap, env.mplan.clone()), WMetric { state: 0, plan: env.mplan.clone() });
     for (i, op) in ops.iter().enumerate() {
@@ -453,6 +458,12 @@ fn run_sequence(env: &Env, rep: &mut Report, idx: u64, ops: &[SOp], shards: usiz
 fn main() {
     let cli = Cli::parse();
     let mut rep = Report::new("C09", &cli);
+    // a store operation that never returns (a worker gone, a reply never sent) is decided by the quiescence detector
+    let wd = if cli.small { None } else { Some(vh::watchdog::Watchdog::start(&cli, "C09", None)) };
+    if let Some(w) = &wd {
+        let _ = WD.set(w.clone());
+        w.arm("exhaustive / sampled short sequences".to_string());
+    }
     let env = Env { plan: FaultPlan::new(), mplan: FaultPlan::new(), notif: CountingNotifier::default(), cap: 4 };
     let alpha = small_alphabet();
     let a = alpha.len() as u64;
@@ -538,6 +549,9 @@ fn main() {
         let ops: Vec<SOp> = (0..len).map(|_| gen_op(&mut rng, nids)).collect();
         rep.eval();
         rep.count("random_sequences_executed");
+        if let Some(w) = &wd {
+            w.arm(format!("random sequence {} shards {} first ops {:?}", s, shards, &ops[..ops.len().min(6)]));
+        }
         run_sequence(&env, &mut rep, s, &ops, shards, "random");
         let mut h = Hasher::new();
         h.str(&format!("{:?}", &ops[..ops.len().min(40)]));
